@@ -231,7 +231,7 @@ def _decode_thl_table(
     rec_input: ReconciliationInput,
     table: THLTable,
 ) -> Generator[ReconciliationOutput, None, None]:
-    if not table[root_object][root_species].infos():
+    if root_object.is_leaf() and not table[root_object][root_species].is_infinite():
         yield ReconciliationOutput(rec_input, {root_object: root_species})
         return
 
